@@ -1,7 +1,7 @@
 (* C02, two extensions of the case space that reuse Model/Ty.v unchanged:
    (1) Union members that are REGISTERED / RESTRICTED types (PositiveFloat, Decimal, ...): opaque members whose
-       adapt_typehints behaviour on each value is observed (table `tbl`: AOk w, or AErr for ANY exception — inside the
-       Union trial loop `except Exception` makes every exception a member failure); the trial loop, the sort and the
+       adapt_typehints behaviour on each value is observed (table `tbl`: AOk w, AErr ErrValue for a ValueError, AErr ErrType for any other
+       exception — inside the Union trial loop `except Exception` makes every exception a member failure); the trial loop, the sort and the
        choice of the result are Model/Ty.v's adapt_union itself;
    (2) a declared default: ActionTypeHint._check_type passes `default=self.default` to the retry with the original
        string, and adapt_typehints starts with `if type(val) in {str,bool,int,float} and val == default: return val`.
@@ -38,6 +38,7 @@ Definition member_result (orig : option str) (v : val) (m : member) : ty * ares 
 Definition adapt_ms (orig : option str) (ms : list member) (v : val) : ares :=
   match ms with
   | [MTy t] => adapt_g fx yl false orig t v
+  | [MOpq n] => opq_lookup tbl n v        (* not a Union: the kind of the exception decides about the retry *)
   | _ => adapt_union fx orig v (map (member_result orig v) ms)
   end.
 
